@@ -719,6 +719,10 @@ def oracle_c02(res):
                  and (ended_at[r] is None or ended_at[r] >= t)]
         delivered = [x for v in rs.values() for x in v if x[0] == t]
         untransmitted = [r for r in rs if r not in toks and any(x[0] == t for x in rs[r])]
+        if match and not delivered and mt in ("CON", "NON") and not res["script"].get("oracle_only"):
+            # (a separate response: matched by token and source alone, whatever message ID it comes under)
+            return (f"matching-dropped: {mt} response token {tok} mid {mid} from {remote} at {t} answers outstanding "
+                    f"request {match[0]} and was not handed over")
         if not match and not untransmitted:
             if delivered:
                 return f"unmatched-delivered: {mt} response token {tok} from {remote} at {t} was delivered"
